@@ -62,11 +62,12 @@ PROPS = {
     'C11': dict(jobs=[('pause', 'real', 1.0)], quick_n=90,
                 rule='scenario whose pause points include one mid-ingest or mid-task',
                 nontrivial=lambda o: o['probes'].get('pause_mid_ingest') or o['probes'].get('pause_mid_task')),
-    'C12': dict(jobs=[('sim', 'real', 1.0)], quick_n=1300,
+    'C12': dict(jobs=[('sim', 'real', .85), ('pause_sample', 'real', .15)], quick_n=1200,
                 rule='run with ingest overlapping workflow tasks (rows where several columns are non-zero) or staggered overlapping ingests',
                 nontrivial=lambda o: o['probes'].get('rows_checked', 0) >= 4 and (o['probes'].get('ingest_overlaps_workflow')
-                                                                                  or o['probes'].get('staggered_overlapping_ingest'))),
-    'C13': dict(jobs=[('sim', 'real', .93), ('pause', 'real', .07)], quick_n=600,
+                                                                                  or o['probes'].get('staggered_overlapping_ingest')
+                                                                                  or o['probes'].get('pause_points'))),
+    'C13': dict(jobs=[('sim', 'real', .8), ('pause_sample', 'real', .2)], quick_n=700,
                 rule='completed run where >=1 full causal chain was checked',
                 nontrivial=lambda o: o['probes'].get('causal_chains_checked') or o['probes'].get('pause_points')),
     'C14': dict(jobs=[('sim', 'general', 1.0)], quick_n=3000,
@@ -292,8 +293,8 @@ def _run_property(pid, tier, seed, budget_s, workers, scale, out):
     viols = []
     jobs = spec['jobs']
     cursor = {j: 0 for j in jobs}
-    chunk = {'sim': 20, 'cluster_ops': 150, 'buffer_ops': 150, 'repro': 3, 'pause': 2, 'units': 10, 'delaymodel': 100}
-    timeout = {'sim': 120, 'repro': 300, 'pause': 600, 'units': 300}
+    chunk = {'sim': 20, 'cluster_ops': 150, 'buffer_ops': 150, 'repro': 3, 'pause': 2, 'pause_sample': 6, 'units': 10, 'delaymodel': 100}
+    timeout = {'sim': 120, 'repro': 300, 'pause': 600, 'pause_sample': 300, 'units': 300}
     submitted = 0
     pending = set()
     broken = None
@@ -302,7 +303,9 @@ def _run_property(pid, tier, seed, budget_s, workers, scale, out):
             while True:
                 now = time.time()
                 # keep the pool fed
-                while len(pending) < workers * 2 and submitted < total and now < deadline:
+                # the verdict is decided once enough violations are in hand: stop generating new work
+                enough = len([x for x in viols if match_known(known, sig_of(x['v']), x['case']) is None]) >= 80
+                while len(pending) < workers * 2 and submitted < total and now < deadline and not enough:
                     # pick the job furthest behind its weight
                     j = min(jobs, key=lambda x: cursor[x] / x[2])
                     n = chunk.get(j[0], 20)
